@@ -110,7 +110,32 @@ def calendar_rule(prog, run):
               "day %s of era %s converts to %s, the calendar says %s" % (bad[1], bad[0], bad[2], bad[3]) if bad else "", mir.loc_of(b))
 
 
+def setter_rule(prog, run):
+    """R5: the builder's metadata setters are independent: only a setter that takes the whole `Metadata` value may replace the
+    builder's metadata wholesale; a setter for one attribute (language, creation time) must update it in place, otherwise a
+    previously configured title/date/language is silently lost"""
+    from .. import mir
+    from . import c20
+    u = prog.lib
+    eff = c20.setter_effects(u)
+    n = 0
+    for p, b in u.bodies.items():
+        if b["in_test_cfg"] or not b.get("impl_self", "").startswith("api::MuxerBuilder"):
+            continue
+        m = mir.norm(p).split("::")[-1]
+        if m not in eff or "metadata" not in eff[m]:
+            continue
+        n += 1
+        whole = any("Metadata" in b["locals"][i]["ty"] and "Option" not in b["locals"][i]["ty"] for i in range(2, b["argc"] + 1))
+        kind = eff[m]["metadata"]
+        run.check(kind == "update" or whole, "R5", "setter %s" % m, "%s the metadata (%s)" % ("replaces" if kind == "replace" else "updates", "takes the whole Metadata value" if whole else "one attribute"),
+                  "`%s` takes a single attribute but replaces the builder's whole metadata: a title, creation time or language configured earlier is lost" % m, mir.loc_of(b))
+    run.floor("R5", n, 3, "builder methods that write the metadata")
+
+
 def check(prog, run):
+    run.rule("R5", "metadata setters are independent: single-attribute setters update in place; only with_metadata(Metadata) replaces")
+    setter_rule(prog, run)
     run.rule("R4", "creation-date conversion: (year, month, day) expressions == proleptic Gregorian calendar on every day of a 400-year era (exhaustive evaluation of the extracted expressions), affine in the era")
     calendar_rule(prog, run)
     run.rule("R1", "udta layout: none when no item; else udta>meta(0)>hdlr(mdir)+ilst>items; name item = data(type=1, locale=0) ++ exact title bytes, at most one")
